@@ -298,7 +298,7 @@ func lemmaPhraseRoundTrip(idx [NumPassphraseWords]int) (in, out [NumPassphraseWo
 //@   requires s != nil
 //@   modifies s.remoteKey, s.mu, events("*")
 //@   ensures @C17,C03 implies(err != nil, s.remoteKey == old(s.remoteKey))
-//@   ensures @C17,C04,C11 implies(err == nil, s.remoteKey == key)
+//@   ensures @C17,C04,C11,C03 implies(err == nil, s.remoteKey == key)
 //@   ensures implies(isnil(s.onRemoteStatic), err == nil)
 
 //@ func (s *ConnData) SetAuthData(data []byte) (err error)
@@ -332,7 +332,8 @@ func lemmaPhraseRoundTrip(idx [NumPassphraseWords]int) (in, out [NumPassphraseWo
 //@   props C11 C17
 //@   trusted
 //@   requires s != nil
-//@   modifies s.mu
+//@   modifies s.mu, events("sid")
+//@   ensures nevents("sid") == old(nevents("sid"))+1
 
 //@ func (c *ClientConn) Close() (err error)
 //@   props C11
@@ -371,6 +372,30 @@ func trOK(t ClientConnTransport) bool {
 	return (is[*grpcTransport](t) && as[*grpcTransport](t) != nil) || (is[*websocketTransport](t) && as[*websocketTransport](t) != nil)
 }
 
+// verifClientConnClose / verifServerConnClose: the once-bodies of the two
+// Close methods close the quit channel on every path (also when closing a
+// relay stream reports an error). The GBN connection's own Close is covered in
+// package gbn; here the connection has none.
+func verifClientConnClose(c *ClientConn) (err error) { return c.Close() }
+func verifServerConnClose(c *ServerConn) (err error) { return c.Close() }
+
+//@ func verifClientConnClose(c *ClientConn) (err error)
+//@   props C11 C12
+//@   unfolds Close
+//@   noframe
+//@   requires c != nil && c.gbnConn == nil && trOK(c.transport) && !isnil(c.log) && !isnil(c.cancel) && c.quit != nil &&
+//@            !oncedone(&c.closeOnce) && !closed(c.quit)
+//@   ensures @C11,C12 closed(c.quit) && oncedone(&c.closeOnce) && nevents("call.ClientConn.cancel") == old(nevents("call.ClientConn.cancel"))+1
+
+//@ func verifServerConnClose(c *ServerConn) (err error)
+//@   props C11 C12
+//@   unfolds Close
+//@   noframe
+//@   requires c != nil && c.gbnConn == nil && !isnil(c.log) && c.quit != nil && !oncedone(&c.closeOnce) && !closed(c.quit)
+//@   ensures @C11,C12 closed(c.quit) && oncedone(&c.closeOnce)
+
+//@ field ClientConn.cancel logged
+
 // clinv / srinv: the remembered connection, if any, uses the stream ids of the
 // remembered session id.
 func clinv(c *Client) bool {
@@ -394,6 +419,7 @@ func srinv(s *Server) bool {
 //@           c.mailboxConn != old(c.mailboxConn) && !closed(c.mailboxConn.quit))
 //@   ensures @C11 implies(err == nil && old(c.mailboxConn) != nil, closed(old(c.mailboxConn).quit))
 //@   at "mailboxConn, err := NewClientConn(" assert @C11 c.sid == sid
+//@   at "Dial: done with existing conn" assert @C11 nevents("sid") == old(nevents("sid"))
 
 //@ func (s *Server) Accept() (conn net.Conn, err error)
 //@   props C11
@@ -404,6 +430,7 @@ func srinv(s *Server) bool {
 //@           s.mailboxConn != old(s.mailboxConn) && !closed(s.mailboxConn.quit))
 //@   ensures @C11 implies(err == nil && old(s.mailboxConn) != nil, closed(old(s.mailboxConn).quit))
 //@   at "mailboxConn, err := NewServerConn(" assert @C11 s.sid == sid
+//@   at "Accept: done with existing conn" assert @C11 nevents("sid") == old(nevents("sid"))
 
 // ---- cipher state (C08) ---------------------------------------------------------
 
@@ -450,14 +477,14 @@ func csnext(c *cipherState, nonce0 uint64, key0, salt0 [32]byte) bool {
 //@   ensures nseals() == old(nseals())
 
 //@ func (c *cipherState) InitializeKey(key [32]byte)
-//@   props C08 C07
+//@   props C08 C02 C07
 //@   modifies cryptolog()
 //@   requires c != nil
 //@   modifies c.nonce, c.secretKey, c.cipher
 //@   ensures csinv(c) && c.nonce == 0 && c.secretKey == key && nseals() == old(nseals()) && nopens() == old(nopens())
 
 //@ func (c *cipherState) InitializeKeyWithSalt(salt, key [32]byte)
-//@   props C08 C07
+//@   props C08 C02 C07
 //@   modifies cryptolog()
 //@   requires c != nil
 //@   modifies c.nonce, c.secretKey, c.cipher, c.salt
@@ -833,6 +860,14 @@ func verifNewMachineKK(cfg *BrontideMachineConfig) (m *Machine, err error) { ret
 //@   ensures @C04 implies(err == nil, m.maxVersion == cfg.MaxHandshakeVersion && m.minVersion >= cfg.MinHandshakeVersion && m.minVersion >= HandshakeVersion2)
 //@   ensures @C04 implies(err == nil, implies(cfg.Initiator, m.version == m.minVersion) && implies(!cfg.Initiator, m.version == m.maxVersion))
 //@   ensures @C03 implies(err == nil, m.remoteStatic != nil && m.remoteStatic == as[*ConnData](cfg.ConnData).remoteKey)
+
+//   isscrypt(out, pw): out is scrypt(pw, salt = pw) with the package's parameters
+func isscrypt(out, pw []byte) bool { return true }
+
+//@ func stretchPassphrase(passphraseEntropy []byte) (out []byte, err error)
+//@   props C03 C07
+//@   noframe
+//@   ensures @C03 implies(err == nil, isscrypt(out, passphraseEntropy))
 
 // hsfresh: no traffic keys yet.
 func hsfresh(b *Machine) bool {
